@@ -82,4 +82,40 @@ theorem jar_listed_member_protected (algs : Algs) (lookup : Bytes → Option Byt
 example : hashFile (fun n => if n == asc "sha256" then some (fun _ => asc "GOOD") else none)
     [(asc "Sha-256-Digest", asc "BAD")] [1, 2, 3] [] = .err "mismatch" := by decide
 
+/-- **jar_manifest_append_rejected.**  When the signature file carries a whole-manifest digest (`…-Digest-Manifest`, i.e. it
+    was not made with `--sections-only`) and that digest does not match the manifest found in the archive, `verifySigFile`
+    fails; it does *not* fall back to the per-section digests (only the absence of every whole-manifest digest does).  So
+    appending a section for a new member to a signed manifest is noticed.  (A seeded change made the mismatch fall through
+    to the section loop; the `signx … mfadd:` ops replay it on the real code.) -/
+theorem jar_manifest_append_rejected (algs : Algs) (sigfile manifest : Bytes) (sf : FilesMap)
+    (hp : parseManifestStrict sigfile = .ok sf)
+    (hbad : hashFile algs sf.main manifest (asc "-Manifest") = .err "mismatch") :
+    verifySigFile algs sigfile manifest = .err "mismatch" := by
+  unfold verifySigFile
+  simp [hp, hbad]
+
+/-- what "does not match" means: every whole-manifest digest names a known algorithm, there is at least one, and not all
+    of them equal the digest of the manifest in the archive -/
+theorem hashFile_mismatch (algs : Algs) (keys : Hdr) (content suffix : Bytes)
+    (hknown : (keys.filter (fun kv => (asc "-Digest" ++ suffix).isSuffixOf kv.1)).any
+        (fun kv => (algs (normalName (toUpper (kv.1.take (kv.1.length - (asc "-Digest" ++ suffix).length))))).isNone) = false)
+    (hne : (keys.filter (fun kv => (asc "-Digest" ++ suffix).isSuffixOf kv.1)).isEmpty = false)
+    (hbad : (keys.filter (fun kv => (asc "-Digest" ++ suffix).isSuffixOf kv.1)).all
+        (fun kv => match algs (normalName (toUpper (kv.1.take (kv.1.length - (asc "-Digest" ++ suffix).length)))) with
+          | some h => h content == kv.2
+          | none => false) = false) :
+    hashFile algs keys content suffix = .err "mismatch" := by
+  unfold hashFile
+  dsimp only
+  rw [hknown, hne]
+  simp only [Bool.false_eq_true, ↓reduceIte]
+  split
+  · next h => exact absurd (h.symm.trans hbad) (by decide)
+  · rfl
+
+/-- non-vacuity: a signature file with a stale whole-manifest digest -/
+example : verifySigFile (fun n => if n == asc "sha256" then some (fun c => if c == asc "M\r\n\r\n" then asc "OLD" else asc "NEW") else none)
+    (asc "Signature-Version: 1.0\r\nSHA-256-Digest-Manifest: OLD\r\n\r\n") (asc "M\r\n\r\nName: x\r\n\r\n") = .err "mismatch" := by
+  decide
+
 end Relic.Props.C02
